@@ -235,6 +235,22 @@ func runC05(c *harness.Ctx, idx int) {
 	// seeds are spread over the whole encode-side corpus
 	ci := r.Intn(encEnumerated + 4000)
 	cc := encCase(c, r, ci)
+	if idx%8 == 7 {
+		// field-less structs at every position (their descriptors have no field index at all)
+		empty := &schema.Struct{UnknownIdx: -1, HasUnknown: r.Bool()}
+		empty.Build()
+		es := &schema.Struct{UnknownIdx: -1, Fields: []*schema.Field{
+			{ID: 1, Req: schema.Optional, T: schema.StructOf(empty, true)},
+			{ID: 2, Req: schema.Default, T: schema.ListOf(schema.StructOf(empty, true))},
+			{ID: 3, Req: schema.Default, T: schema.MapOf(schema.Scalar(schema.I32), schema.StructOf(empty, false))},
+			{ID: 4, Req: schema.Default, T: schema.StructOf(empty, false)},
+		}}
+		es.Build()
+		if r.Bool() {
+			es = empty
+		}
+		cc = &corpusCase{S: es, V: gen.NewValue(r, es, gen.DefaultValCfg()), Class: "fieldless"}
+	}
 	s := cc.S
 	msg := ref.EncodeWith(s, cc.V.Elem(), &ref.EncodeOpts{Order: r.Perm})
 	c.Describe("seed corpus#%d %s type=%s msg=%s", ci, cc.Class, s.Describe(), hexClip(msg))
